@@ -37,7 +37,23 @@ func Sum(v reflect.Value) (float64, error) {
 	}
 
 	if math.IsInf(sum, 0) || math.IsNaN(sum) {
-		return 0, fmt.Errorf("the sum function has resulted in a value that cannot be represented as a JSON number")
+		// A partial total has overflowed; the sum itself may
+		// still be a number (1e308 + 1e308 - 1e308): add the
+		// members up exactly before giving up.
+		total := new(big.Rat)
+		for i := 0; i < v.Len(); i++ {
+			n, _ := jtypes.AsNumber(v.Index(i))
+			r := new(big.Rat)
+			if r.SetFloat64(n) == nil {
+				return 0, fmt.Errorf("the sum function has resulted in a value that cannot be represented as a JSON number")
+			}
+			total.Add(total, r)
+		}
+		exact, _ := total.Float64()
+		if math.IsInf(exact, 0) {
+			return 0, fmt.Errorf("the sum function has resulted in a value that cannot be represented as a JSON number")
+		}
+		return exact, nil
 	}
 
 	return sum, nil
